@@ -4,9 +4,10 @@ import MosnVerif.Model.H2ReadLoop
 /-!
 C08: the regenerated checked-access programs (Gen/C08Matchers, Gen/C08H2Parse) put to work.
 
-* `matcherOf`: the registered protocol matchers by name, all answering an `api.MatchResult`
-  (`stream/xprotocol/factory.go ProtocolMatch` maps MatchSuccess / MatchAgain / other to nil / EAGAIN / FAILED; the HTTP/1
-  and HTTP/2 factories answer nil / EAGAIN / FAILED themselves: `errToMR` is the inverse map).
+* `matcherOf`: what `ProtocolMatch` of each registered stream factory answers, by protocol name, read back as an
+  `api.MatchResult` (`errToMR`: nil / EAGAIN / FAILED ↦ success / again / failed): the xprotocol matchers go through the
+  regenerated result mapping of `stream/xprotocol/factory.go ProtocolMatch` (`xfactory_result`), the HTTP/1 and HTTP/2
+  factories answer nil / EAGAIN / FAILED themselves.
 * `genParse`: the payload-parser oracle of `Model/H2ReadLoop` replaced by the regenerated parsers: the bytes of one
   complete frame (9-byte header + payload, as `MFramer.ReadFrame` slices them out of the read buffer) are parsed by
   `h2p_parse`; nil error ⇒ `ok`, StreamError ⇒ `stream`, every other error ⇒ `conn` (ReadFrame hands it on; Dispatch
@@ -25,12 +26,15 @@ def mapErr (x : Chk Err) : Chk MR := x.bind (fun e => .ok (errToMR e))
 
 def matcherNames : List String := ["bolt", "boltv2", "dubbo", "thrift", "tars", "http1", "http2"]
 
+/-- an xprotocol matcher behind `streamConnFactory.ProtocolMatch` (regenerated result mapping `xfactory_result`) -/
+def viaFactory (m : Bytes → Chk MR) (b : Bytes) : Chk MR := (m b).bind (fun r => .ok (errToMR (xfactory_result r)))
+
 def matcherOf : String → Option (Bytes → Chk MR)
-  | "bolt" => some bolt_matcher
-  | "boltv2" => some boltv2_matcher
-  | "dubbo" => some dubbo_matcher
-  | "thrift" => some thrift_matcher
-  | "tars" => some tars_matcher
+  | "bolt" => some (viaFactory bolt_matcher)
+  | "boltv2" => some (viaFactory boltv2_matcher)
+  | "dubbo" => some (viaFactory dubbo_matcher)
+  | "thrift" => some (viaFactory thrift_matcher)
+  | "tars" => some (viaFactory tars_matcher)
   | "http1" => some (fun b => mapErr (http1_matcher b))
   | "http2" => some (fun b => mapErr (http2_matcher b))
   | _ => none
